@@ -45,6 +45,8 @@ type Case struct {
 	Warmup     bool       `json:"warmup"` // serve one request alone to completion before the interleaving
 	Yields     bool       `json:"yields"` // park requests at the verif yield point inside the $_GET lazy fill too
 	Quiet      bool       `json:"quiet"`  // the handler writes no body: its fields go into the X-Out header and its status stays pending, so that what a middleware does to $w AFTER $next (header X-MwA<j> from a local, then the body marker) still reaches the client
+	OnFormat   bool       `json:"onformat"` // route "mux": the server registers an onFormat closure (and no onError): withResponseFormatter is then the outermost wrapper of every route
+	PerReq     bool       `json:"perreq"`   // (read kinds clo_static / bind_*) see readExpr
 	Cap        bool       `json:"cap"`    // route "mux": the route handler IS a closure that captured an array, a map and a counter by value with use (...) at registration and mutates them in place (read kinds cap_*)
 	Gen        string     `json:"gen"`    // generator family (after 3 deadlocked cases of one family the rest of that family is skipped)
 	StepMs     int        `json:"step_ms"` // watchdog: a released request must reach its next gate / finish within this time (default 2000)
@@ -87,6 +89,19 @@ var readExpr = map[string]string{
 	"cap_set": `$cmap["k"]`,
 	"cap_get": `$cmap["k"]`,
 	"cap_cnt": `($ccnt == $capc ? $id : "c" . $ccnt)`,
+	// a closure CREATED BY THIS REQUEST with static locals (a counter and a memo table): its statics start fresh
+	"clo_static": `($cs() == $csn . ":" . $csn . ":" . $id ? $id : "cs")`,
+	// per-request data read through methods of the request object
+	"rall":      `c11_field($r->all(), "id")`,
+	"ronly":     `c11_field($r->only("id"), "id")`,
+	"rexcept":   `c11_field($r->except("pid"), "id")`,
+	"rqueryp":   `c11_field($r->query(), "id")`,
+	"rcookie":   `c11_after($r->header("Cookie"), "sid=")`,
+	"rformval":  `$r->formValue("pid")`,
+	"rpostform": `$r->postFormValue("pid")`,
+	"rurl":      `c11_after($r->fullUrl(), "id=")`,
+	// bind(): a DTO with property defaults; odd requests send opt=<id>, even ones omit it and must get the default
+	"rbind":     `c11_bind($r->bind("C11Dto"), $id)`,
 }
 
 // statements run just before a read: the in-place mutation of the captured variable
@@ -94,12 +109,17 @@ var readPre = map[string]string{
 	"cap_arr": `$carr[] = $id; $capn = $capn + 1;`,
 	"cap_set": `$cmap["k"] = $id;`,
 	"cap_cnt": `$ccnt = $ccnt + 1; $capc = $capc + 1;`,
+	"clo_static": `$csn = $csn + 1;`,
 }
 
 func script(segs [][]string, gates bool, quiet bool, capt bool) string {
 	var sb strings.Builder
 	sb.WriteString("class C11Box { public $v; function __construct($v) { $this->v = $v; } }\n")
 	sb.WriteString("function c11_ob_open($id) { ob_start(); echo $id; return $id; }\n")
+	sb.WriteString("class C11Dto { public $pid = \"none\"; public $opt = \"dflt\"; public $id = \"0\"; }\n")
+	sb.WriteString("function c11_field($a, $k) { if (is_array($a)) { return $a[$k]; } return $a->{$k}; }\n")
+	sb.WriteString("function c11_after($s, $m) { $p = strpos($s, $m); if ($p === false) { return \"?\"; } return substr($s, $p + strlen($m)); }\n")
+	sb.WriteString("function c11_bind($d, $id) { $want = (((int)$id) % 2 == 1) ? $id : \"dflt\"; if ($d->pid == $id && $d->id == $id && $d->opt == $want) { return $id; } return \"b\" . $d->pid . \"/\" . $d->opt; }\n")
 	if capt {
 		sb.WriteString("$carr = [0]; $cmap = [\"k\" => \"0\"]; $ccnt = 0;\n")
 		sb.WriteString("$hcap = function($r, $w) use ($carr, $cmap, $ccnt) {\n  $capn = 0; $capc = 0;\n")
@@ -109,6 +129,7 @@ func script(segs [][]string, gates bool, quiet bool, capt bool) string {
 	sb.WriteString("  $id = $r->input(\"id\");\n  $n = (int)$id;\n  $local = $id;\n  $arr = [0, $id];\n  $obj = new C11Box($id);\n")
 	sb.WriteString("  $f = function() use ($id) { return $id; };\n")
 	sb.WriteString("  $acc = \"\"; $i = 0; while ($i < 3) { $acc = $id; $i = $i + 1; }\n")
+	sb.WriteString("  $csn = 0; $cs = function() use ($id) { static $n = 0; static $memo = []; $n = $n + 1; $memo[] = $id; return $n . \":\" . count($memo) . \":\" . $memo[0]; };\n")
 	sb.WriteString("  $out = \"\";\n")
 	for k, seg := range segs {
 		if gates {
@@ -177,7 +198,11 @@ func yieldFn(point string) {
 var routePath = "/h"
 
 func mkRequest(i int) *http.Request {
-	body := strings.NewReader(fmt.Sprintf("pid=%d", i))
+	form := fmt.Sprintf("pid=%d", i)
+	if i%2 == 1 {
+		form += fmt.Sprintf("&opt=%d", i) // an optional field only odd requests send (read kind rbind)
+	}
+	body := strings.NewReader(form)
 	req := httptest.NewRequest("POST", fmt.Sprintf("%s?id=%d", routePath, i), body)
 	req.Header.Set("Content-Type", "application/x-www-form-urlencoded")
 	req.Header.Set("X-Tag", fmt.Sprint(i))
@@ -206,6 +231,9 @@ func mkHandler(c *Case, withGates bool, gs map[int]*gateState) (http.Handler, st
 	src := script(c.Segs, withGates, c.Quiet, c.Cap && c.Route == "mux")
 	if c.Route == "mux" {
 		src += "$server = new Net\\Http\\Server(\"127.0.0.1\", 0);\n$rt = $server;\n"
+		if c.OnFormat {
+			src += "$server->onFormat(function($code, $message, $data) { return [\"code\" => $code, \"message\" => $message, \"data\" => $data]; });\n"
+		}
 		if c.Group {
 			src += "$rt = $server->group(\"/g\");\n"
 		}
